@@ -3,6 +3,7 @@
 G10  every non-const Circuit method that writes a structural member calls
      checkNotInUse() at a point that dominates all of its member writes
 T10  checkNotInUse() returns normally only when isInUse_ is false
+X2   no stage entry is reachable from inside a stage (the busy guard is not re-entrant)
 X1   in placeGlobal/legalize/placeDetailed the busy flag is true while the placer
      runs and is false again on *every* exit, normal or exceptional
 P2   params.check() comes first in GlobalPlacer::place, DetailedPlacer::legalize,
@@ -46,6 +47,7 @@ def run(ctx, rep, tier):
     rep.rule("G10", "structural Circuit mutators: checkNotInUse() dominates every member write", min_instances=7)
     rep.rule("T10", "checkNotInUse() returns normally only if isInUse_ is false", min_instances=1)
     rep.rule("X1", "busy flag set while the placer runs and cleared on every exit (normal and exceptional)", min_instances=3)
+    rep.rule("X2", "no placement stage is re-entered from inside a stage (busy guard is not re-entrant)", min_instances=3)
     rep.rule("P2", "params.check() first in the algorithm entry points", min_instances=3)
     rep.rule("P1", "failed legalization writes nothing back", min_instances=2)
 
@@ -116,6 +118,25 @@ def run(ctx, rep, tier):
         if len(fs) != 1:
             raise AnalysisBroken("stage entry %s(params, callback) not found exactly once" % sq)
         check_busy_flag(ctx, rep, fs[0])
+
+    # ---- X2: stages are not re-entered (the busy guard is not re-entrant) -----------
+    stage_funcs = {}
+    for sq in STAGES:
+        for f in prog.func(CQ + sq):
+            stage_funcs[f.key] = f
+    trans = eff.transitive()
+    for k, f in stage_funcs.items():
+        if len(f.params) != 2:
+            continue
+        inner_stage = [stage_funcs[c] for c in trans[k]["calls"] if c in stage_funcs]
+        if inner_stage:
+            from .c03 import call_chain
+            g = inner_stage[0]
+            rep.violation("X2", f.decl, f, "stage re-enters a stage: %s" % g.short,
+                          "%s; the nested call's busy guard clears isInUse_ while the outer stage is still running" % " -> ".join(call_chain(ctx, f, g)),
+                          key="%s|re-enters %s" % (f.short, g.short))
+        else:
+            rep.holds("X2", f.decl, f, "no stage entry reachable from inside %s" % f.short)
 
     # ---- P2 -------------------------------------------------------------------
     p2_set = {CQ + q for q in CHECK_FIRST}
